@@ -21,10 +21,10 @@ Section HeapEngine.
   Variable dflt : C.              (* the zero configuration of np.zeros; also the default of list reads *)
 
   (* an ndarray object is its list of rows (1D automaton: rows; 2D: grids); the heap maps ids to objects *)
-  Definition hobj := list C.
-  Definition heap := list hobj.
+  Local Notation hobj := (list C).
+  Local Notation heap := (list (list C)).
   (* a reference to one row: (object id, row index) - what `ca[-1]` (a view) or a whole row object is *)
-  Definition href := (nat * nat)%type.
+  Local Notation href := (nat * nat)%type.
 
   Definition h_get (h : heap) (id : nat) : hobj := nth id h [].
   Definition h_row (h : heap) (rf : href) : C := nth (snd rf) (h_get h (fst rf)) dflt.
@@ -141,6 +141,10 @@ Section HeapEngine.
     forall p h cid t, length (snd (fst (pred p h cid t))) = length h /\
                       forall id, ~ W id -> id <> cid -> h_get (snd (fst (pred p h cid t))) id = h_get h id.
 End HeapEngine.
+
+(* the type of heaps, as a notation (so that `length`, `nth` ... see plain lists) *)
+Notation heap C := (list (list C)) (only parsing).
+Notation href := (nat * nat)%type (only parsing).
 
 Arguments h_get {C} h id.
 Arguments h_row {C} dflt h rf.
